@@ -26,6 +26,7 @@ import (
 
 	"github.com/pkg/errors"
 
+	"github.com/oxia-db/oxia/common/compare"
 	"github.com/oxia-db/oxia/common/concurrent"
 	"github.com/oxia-db/oxia/common/constant"
 	time2 "github.com/oxia-db/oxia/common/time"
@@ -86,6 +87,12 @@ func (n *notifications) Deleted(key string) {
 
 func (n *notifications) DeletedRange(keyStartInclusive, keyEndExclusive string) {
 	if strings.HasPrefix(keyStartInclusive, constant.InternalKeyPrefix) {
+		return
+	}
+	// A batch has one slot per key: never let a narrower range with the same start hide a wider one
+	if prev, ok := n.batch.Notifications[keyStartInclusive]; ok &&
+		prev.Type == proto.NotificationType_KEY_RANGE_DELETED && prev.KeyRangeLast != nil &&
+		compare.CompareWithSlash([]byte(*prev.KeyRangeLast), []byte(keyEndExclusive)) >= 0 {
 		return
 	}
 	n.batch.Notifications[keyStartInclusive] = &proto.Notification{
